@@ -162,7 +162,17 @@ func checkKeyProvenance(r *Run, p *Prog) {
 		}
 	}
 	if wrapAdd == 0 {
-		r.Undecide("C15.R2: no call of the persisted counter's Add found")
+		r.Ob("C15.R2.provenance", "counter.add advances the persisted counter with the atomic Add", p.Position(add.Pos()), false, "no call of the persisted counter's Add: a read-then-Set pair is a lost-update race between two concurrent creates (same local key handed out twice)")
+	}
+	// the persisted counter is never Set from the channel package: Set overwrites what a
+	// concurrent Add just reserved
+	for _, cs := range p.AllCalls(func(o types.Object, _ *ast.CallExpr) bool {
+		f, ok := o.(*types.Func)
+		return ok && f.Name() == "Set" && f.Pkg() != nil && strings.HasSuffix(f.Pkg().Path(), "x/kv") && recvNamed(f) == "AtomicInt64Counter"
+	}) {
+		if cs.Fn.InPkgs(chanPkg) {
+			r.Ob("C15.R2.provenance", "persisted counter overwritten in "+cs.Fn.Top().Name, p.Position(cs.Call.Pos()), false, "AtomicInt64Counter.Set replaces the counter: keys reserved by a concurrent Add are handed out again")
+		}
 	}
 	// (c) rows are created only after the key assignment succeeded
 	table := p.FieldOf(chanPkg, "Service", "table")
